@@ -8,7 +8,7 @@ makeMethodArshaler / typedArshalers.lookup / DepthLength policing chooses.
   disp police <floor> <prefix-ops> <script> <ret>                          one policed call (floor: e = entry depth, or a number)
 
   ms       digits 0 absent, 1 value receiver, 2 pointer receiver (To J A T / From U Tx)
-  levels   comma separated  code[:prefix-ops[:input-kind]]   code: c container, i interface, z nil interface,
+  levels   comma separated  code[:prefix-ops[:input-kind]]   code: c container (C: struct whose member is dropped by omitzero), i interface, z nil interface,
            p pointer, n nil pointer, b the type T;  input-kind (unmarshal): n null, s string, l other scalar, c composite
   fns      comma separated  <F|T><v|p|i|a|o>  (F: MarshalFunc/UnmarshalFunc, T: MarshalToFunc/UnmarshalFromFunc) or -
   behaviours  comma separated  id=ops/ret[|ops/ret…] (coder style; one script per level or one for all)
@@ -63,6 +63,7 @@ def parseLevel (forced dfltOk : Bool) (s : String) : Option Level :=
     match code with
     | "b" => some base
     | "c" => some { base with kind := .cont }
+    | "C" => some { base with kind := .cont, omitZero := true }
     | "p" => some { base with kind := .ptr }
     | "n" => some { base with kind := .ptr, isNil := true }
     | "i" => some { base with kind := .iface }
@@ -144,6 +145,7 @@ def showOutcome (o : Outcome) : String :=
     | .ok (.cand c) => "ok:" ++ showCand c
     | .ok (.dflt _) => "ok:D"
     | .ok (.null _) => "ok:null"
+    | .ok (.omitted _) => "ok:omitted"
   tr ++ " " ++ r
 
 def handleDispatch (dir : String) (documented : Bool) (args : List String) : String :=
